@@ -326,6 +326,14 @@ func SimRelease() {
 	mu.Unlock()
 }
 
+// SimHoldReset drops every hold (end of a scenario).
+func SimHoldReset() {
+	mu.Lock()
+	holds, held = 0, false
+	cond.Broadcast()
+	mu.Unlock()
+}
+
 // Retrievals records how many kevents each blocking Kevent call returned (batching evidence).
 var Retrievals []int
 
